@@ -474,6 +474,10 @@ func genNestVal(r *rand.Rand) V {
 	case 3:
 		return V{T: 'K', Form: "as", Cfg: Cfg{Kind: kinds(r)}}
 	case 4:
+		if r.Intn(2) == 0 {
+			// a Condition is not a Stack, whatever its expression is: it is stored under no-nesting
+			return V{T: 'C', Form: []string{"n", "a", "p"}[r.Intn(3)], Kw: "k", Op: "c1", Xs: []V{{T: 'K', Form: "n", Cfg: Cfg{Kind: kinds(r)}, Xs: []V{{T: 'i', I: int64(nextLeaf)}}}}}
+		}
 		return V{T: 'C', Form: "n", Kw: "k", Op: "c1", Xs: []V{{T: 'i', I: int64(nextLeaf)}}}
 	case 5:
 		return V{T: 'N'}
